@@ -1,5 +1,7 @@
 mod b64;
 mod backends;
+mod drive_tokens;
+mod keys;
 mod obs_b64;
 mod obs_pae;
 mod payload;
@@ -30,6 +32,21 @@ fn main() {
             let mut rec = Recorder::create(&out);
             obs_pae::run(&mut rec, thorough, seed);
             println!("lines={}", rec.finish());
+        }
+        "gen-fixtures" => keys::gen_fixtures(),
+        "tokens" => {
+            let mut rec = Recorder::create(&out);
+            let backends: Vec<String> = arg(&args, "--backends").map(|b| b.split(',').map(|x| x.to_string()).collect()).unwrap_or_else(|| backends::ALL.iter().map(|x| x.to_string()).collect());
+            let cfg = drive_tokens::Cfg { thorough, seed, mode: arg(&args, "--mode").unwrap_or_else(|| "roundtrip".into()), backends };
+            // panics inside the code under test are data; keep the default hook quiet
+            std::panic::set_hook(Box::new(|_| {}));
+            let st = drive_tokens::run(&mut rec, &cfg);
+            if let Some(t) = arg(&args, "--table") {
+                rec.dump_table(&t);
+            }
+            let distinct = rec.distinct();
+            println!("{}", serde_json::json!({"lines": rec.finish(), "seals": st.seals, "presentations": st.presentations,
+                "signatures": st.signatures, "leading_zero_sigs": st.leading_zero_sigs, "distinct_byte_strings": distinct}));
         }
         _ => {
             eprintln!("usage: pv-harness <cmd> --out FILE [--tier quick|thorough] [--seed N]");
